@@ -240,7 +240,7 @@ func (m *Mast) diffOne(
 				}
 			}
 		} else if o.considerLink != nil && n.considerLink == nil {
-			if next := dc.newStack.peek(); next != nil && next.considerLink == o.considerLink {
+			if next := dc.newStack.nextLink(); next != nil && next.considerLink == o.considerLink {
 				// The new version has this very subtree right behind its entry, so the
 				// entry precedes everything below the link: report it without opening
 				// the subtree, which the two versions share and which is skipped next.
@@ -260,7 +260,7 @@ func (m *Mast) diffOne(
 			dc.oldStack.pushNode(oldNode)
 			dc.newStack.push(n)
 		} else if o.considerLink == nil && n.considerLink != nil {
-			if next := dc.oldStack.peek(); next != nil && next.considerLink == n.considerLink {
+			if next := dc.oldStack.nextLink(); next != nil && next.considerLink == n.considerLink {
 				// symmetric: the old entry precedes a subtree both versions share
 				dc.newStack.push(n)
 				dc.curKey = o.yield.Key
@@ -366,6 +366,19 @@ func (stack *iterItemStack) pop() *iterItem {
 func (stack *iterItemStack) peek() *iterItem {
 	if len(stack.things) > 0 {
 		return &stack.things[len(stack.things)-1]
+	}
+	return nil
+}
+
+// nextLink returns the nearest link below the entries on top of the stack:
+// the subtree that follows them in key order. Several entries in a row (keys of
+// one node with no children between them) all precede that subtree, so what
+// holds for an entry right in front of it holds for each of them.
+func (stack *iterItemStack) nextLink() *iterItem {
+	for i := len(stack.things) - 1; i >= 0; i-- {
+		if stack.things[i].considerLink != nil {
+			return &stack.things[i]
+		}
 	}
 	return nil
 }
